@@ -186,6 +186,9 @@ def check(ctx):
                         "--nchars", "3" if quick else "4", "--drift-cap", "0" if quick else "12",
                         "--real-payload", "10" if quick else "30"], trace)
     st = info["stats"]
+    for k in ("cases_binary_eac", "cases_binary_conv", "cases_binary_dlf"):
+        if not st.get(k):
+            raise c.ToolError("vacuity: no case through the adlt binary of kind %s" % k)
     if not st.get("cases_dlfa") or not st.get("cases_dlf"):
         raise c.ToolError("vacuity: no DLF case (alone with all elements / minimal after fully specified other filters)")
     # (e) TLC validates every recorded case against the contract (strict or with the known-finding deviations)
@@ -251,7 +254,8 @@ def check(ctx):
     ctx.extra["real_payload"] = dict(real, messages=st.get("real_msgs", 0), messages_text_longer_than_raw=st.get("real_msgs_text_longer_than_raw", 0),
                                      messages_skipped=st.get("real_msgs_skipped_text_not_printable_ascii", 0) + st.get("real_msgs_skipped_text_not_rendered", 0))
     ctx.extra["paths"] = {"type_bytes_covered": len(vmm_seen), "dlf_cases_minimal_filter_after_fuller_filters": st.get("cases_dlfa", 0),
-                          "dlf_cases_alone_all_elements": st.get("cases_dlf", 0), "pairs_without_ext_header": noext, "pairs_negated": neg_pairs, "pairs_negated_matching": neg_match,
+                          "dlf_cases_alone_all_elements": st.get("cases_dlf", 0),
+                          "cases_through_adlt_convert": {k: st.get("cases_binary_" + k, 0) for k in ("eac", "conv", "dlf")}, "pairs_without_ext_header": noext, "pairs_negated": neg_pairs, "pairs_negated_matching": neg_match,
                           "pairs_disabled": disabled, "pairs_per_criterion_form": kinds, "trace_events": evk,
                           "kf_switches": sw, "kf_cases": sum(1 for k in v.known)}
     ctx.extra["binding_selftest"] = binding_selftest(ctx, cases, v, sw)
